@@ -38,7 +38,7 @@ ASSUMPTIONS = ['numeric oracle: exact rational comparison (fractions.Fraction bu
                'literal without leading zeros; other value spellings are DONT-CARE',
                'string order is Python str order (code points)']
 INTERPRETER_FLAGS = [[], ['-O'], [], ['-bb']]
-CONCURRENT = lambda case: True          # pure function of its arguments; see vlib/concurrent.py
+CONCURRENT = lambda case: case.get('kind') != 'twins' and (True)          # pure function of its arguments; see vlib/concurrent.py
 SHARDS = {'quick': 4, 'thorough': 16}
 MIN_DISTINCT = {'quick': 5000, 'thorough': 100000}
 
@@ -244,7 +244,23 @@ def dont_care(ctx, case, label, value, spec, ref=None, ref_kind=False):
                  {'value': value, 'spec': spec, 'exc': exc, 'class': label})
 
 
+def TWIN_FUNCS():
+    from oslo_utils import specs_matcher as sm
+    return {'match_value_in': lambda v: sm.match(v, '<in> Ab'), 'match_value_seq': lambda v: sm.match(v, 's== AbC'),
+            'match_value_or': lambda v: sm.match(v, '<or> abc <or> AbC'), 'match_spec': lambda v: sm.match('AbC', v),
+            'match_value_plain': lambda v: sm.match(v, 'AbC')}
+
+
+TWIN_TEXT_FUNCS = ['match_value_in', 'match_value_seq', 'match_value_or', 'match_spec', 'match_value_plain']
+TWIN_TEXTS = ['AbC', 'abc', 's== AbC', '<or> AbC <or> dEf', '<in> Ab', 'xAby', 's!= abC', '<all-in> AbC']
+TWIN_NUM_FUNCS = ()
+TWIN_NUMBERS = ()
+
+
 def evaluate(ctx, case):
+    if case.get('kind') == 'twins':
+        from vlib import twins as _tw
+        return _tw.evaluate_case(ctx, case, TWIN_FUNCS())
     kind = case['kind']
     if kind == 'raw':
         dont_care(ctx, case, case.get('cls', 'raw'), case['value'], case['spec'])
@@ -815,6 +831,13 @@ def HAMMER(ctx):
     return out
 
 def run(ctx):
+    # ---- the same characters / the same number handed over as other objects, in several orders (vlib/twins.py)
+    from vlib import twins as _tw
+    for _i, _case in enumerate(_tw.make_cases(ctx.rng('twins'), ctx.pick(160, 8000), TWIN_TEXT_FUNCS, TWIN_TEXTS,
+                                              TWIN_NUM_FUNCS, TWIN_NUMBERS, as_characters=False)):
+        # (match() compares: a caller's str subclass with its own equality legitimately takes part in '==')
+        if ctx.mine(_i):
+            evaluate(ctx, _case)
     for i, case in enumerate(directed()):
         if ctx.mine(i):
             ctx.sample('directed/' + case['kind'], case)
@@ -845,3 +868,10 @@ LEVEL_NOTE = ('Trusted: fractions.Fraction, Python str comparison, the operator 
               'operator glued to its operand, trailing extra tokens, reversed or malformed <range-in>, <range-in> values '
               'that are not Python literals, <all-in> values that are not list texts.')
 TECHNIQUE = 'reference-model monitor (operator table on generated operands) over constructive generators'
+
+
+# a fifth of the cases runs after "another pyparsing user in the process" has switched pyparsing's process-wide class for
+# bare strings inside expressions to Suppress (ParserElement.inline_literals_using): the grammar built per call may not
+# pick that up
+from vlib import envmodes as _envmodes_pp  # noqa: E402
+evaluate = _envmodes_pp.with_modes(evaluate, pp=lambda case: True)
